@@ -316,3 +316,78 @@ def r_dstr(P, chk):
                                   f.name, sorted(fields)))
     chk.floor(rid, n_w, 8, "functions outside d_string.c that write DString fields")
     chk.analysed[rid] = {"d_string_functions": n_funcs, "external_field_writers": n_w}
+
+
+# ---------------------------------------------------------------------------
+# R-DSTR/editloop (C19): a loop that edits the string keeps its end position and its running total in step
+
+def _norm(lf):
+    return {k: v for k, v in (lf or {}).items() if v != 0}
+
+
+def r_editloop(P, chk):
+    from .rules_misc import _linear
+    rid = "R-DSTR/editloop"
+    chk.rule(rid, "d_string.c: in a loop that erases and inserts in the string, every position / total that the loop carries "
+                  "(`x += E`) moves by exactly the net length change of one iteration (inserted - erased, by linear arithmetic)")
+    u = P.units.get("d_string.c")
+    if u is None:
+        raise AnalysisBroken("d_string.c is gone")
+    n = 0
+    for f in u.funcs.values():
+        b = _dstring_param(f)
+        if b is None:
+            continue
+        for w in f.walk():
+            if w["k"] not in ("WhileStmt", "ForStmt"):
+                continue
+            body = w["c"][1] if w["k"] == "WhileStmt" else w["c"][3]
+            if body is None:
+                continue
+            net = {}
+            edits = 0
+            okform = True
+            for c in walk(body):
+                if c["k"] != "CallExpr" or len(c["c"]) < 2 or key(c["c"][1]) != b:
+                    continue
+                cal = c.get("callee")
+                if cal == "d_string_erase":
+                    lf = _linear(f, c["c"][3])
+                    sign = -1
+                elif cal in ("d_string_insert", "d_string_append", "d_string_prepend"):
+                    a = c["c"][3] if cal == "d_string_insert" else c["c"][2]
+                    lf = {"strlen(%s)" % key(a): 1}
+                    sign = 1
+                elif cal in ("d_string_insert_c", "d_string_append_c"):
+                    lf = {1: 1}
+                    sign = 1
+                else:
+                    continue
+                edits += 1
+                if lf is None:
+                    okform = False
+                    continue
+                for k2, v in lf.items():
+                    net[k2] = net.get(k2, 0) + sign * v
+            if edits < 2 or not okform:
+                continue
+            net = _norm(net)
+            for x in walk(body):
+                if x["k"] != "CompoundAssignOperator" or x["op"] not in ("+=", "-="):
+                    continue
+                t = strip(x["c"][0])
+                if t is None or t["k"] != "DeclRefExpr":
+                    continue
+                n += 1
+                lf = _linear(f, x["c"][1])
+                if lf is not None and x["op"] == "-=":
+                    lf = {k2: -v for k2, v in lf.items()}
+                ok = lf is not None and _norm(lf) == net
+                chk.obligation(rid, "%s %s: `%s %s %s` equals the net length change %s" % (
+                    f.where(x), f.name, t["n"], x["op"], key(x["c"][1]), net), ok=ok)
+                if not ok:
+                    chk.violation(rid, "dstr:editloop:%s:%s" % (f.name, t["n"]), f.where(x),
+                                  "%s: the loop changes the length of %s by %s per iteration but moves `%s` by %s" % (
+                                      f.name, b, net, t["n"], _norm(lf) if lf is not None else key(x["c"][1])))
+    chk.floor(rid, n, 2, "carried positions in editing loops")
+    chk.analysed[rid] = {"carried_updates": n}
